@@ -73,6 +73,10 @@ class Check(CheckBase):
         cs = [{"label": "S/nodes%d/K%d" % (m, K), "kind": "S", "m": m, "K": K, "split_depth": 5 if K > 4 else None} for m in (1, 2, 3)]
         # the same geometry subdivided a second time with another flatness (nothing may be remembered between calls)
         cs.append({"label": "S/nodes2/K2/second-call-other-flatness", "kind": "S", "m": 2, "K": 2, "second": True})
+        # end to end with the predicate summarised by its contract F: every final piece is flat (at most K subdivisions)
+        KC = 1 if tier == "quick" else 2
+        for m in (2,) if tier == "quick" else (2, 3):
+            cs.append({"label": "E2C/nodes%d/K%d" % (m, KC), "kind": "E2C", "m": m, "K": KC, "split_depth": 3})
         cs.append({"label": "F/n4", "kind": "F", "n": 4, "split_depth": 4})
         cs.append({"label": "T/i", "kind": "Ti"})
         # T(ii) is not part of either tier: z3 (nlsat) returned 'unknown' after 100 s on the direct formulation and needed
@@ -83,10 +87,12 @@ class Check(CheckBase):
     def config(self, tier, case):
         if case["kind"] in ("F", "Tii"):
             return engine.Config(logic="QF_NRA", fresh_feas=True, max_decisions=200, ob_rlimit=400_000_000)
-        return engine.Config(logic="QF_LRA", max_decisions=400)
+        if case["kind"] == "E2C":
+            return engine.Config(logic="QF_NRA", fresh_feas=True, max_decisions=200, ob_rlimit=300_000_000, falsify_samples=40)
+        return engine.Config(logic="QF_LRA", max_decisions=400, max_paths=1500)      # the unchanged code needs < 100 paths per case
 
     def expected_reach(self, tier):
-        return ["S:no-split", "S:split", "F:True", "F:False", "T:i"]
+        return ["S:no-split", "S:split", "F:True", "F:False", "T:i", "E2C:split", "E2C:no-split"]
 
     def harness(self, run, case):
         kind = case["kind"]
@@ -139,10 +145,29 @@ class Check(CheckBase):
         m, K = case["m"], case["K"]
         answers = []
         budget = {"left": K}
-        flat_marker = object()
+        contract = kind == "E2C"
+        if contract:
+            # assume-guarantee: the predicate is its contract F (proved above) for a symbolic flatness > 0; the
+            # number of 'not flat' answers stays bounded by K (deeper subdivisions are outside the bound)
+            flat_marker = run.real("flat")
+            run.assume(flat_marker > 0)
+        else:
+            flat_marker = object()
+
+        def flat_term(points):
+            a, b = [zreal(c) for c in points[0]], [zreal(c) for c in points[3]]
+            return z3.And([c09.close_term([zreal(c) for c in q], a, b, flat_marker.t) for q in points[1:3]])
 
         def stub(points, tolerance):
             assert len(points) == 4 and tolerance is flat_marker
+            if contract:
+                ans = run.branch(flat_term(points))
+                if not ans:
+                    if budget["left"] <= 0:
+                        raise engine.Infeasible()      # more than K subdivisions: outside the bound
+                    budget["left"] -= 1
+                answers.append((ans, points))
+                return ans
             if budget["left"] > 0 and not run.branch(run.fresh_bool("flat?")):
                 budget["left"] -= 1
                 answers.append((False, points))
@@ -179,6 +204,12 @@ class Check(CheckBase):
                 j, a, b = pieces[i]
                 mid = (a + b) / 2
                 pieces[i:i + 1] = [(j, a, mid), (j, mid, b)]
+        if contract:
+            run.reach("E2C:split" if len(s_p) > m else "E2C:no-split")
+            for k in range(len(s_p) - 1):
+                got = (s_p[k][1], s_p[k][2], s_p[k + 1][0], s_p[k + 1][1])
+                run.prove("E2C:every-final-piece-is-flat-within-the-flatness", flat_term(got), info={"piece": k, "pieces": len(s_p) - 1})
+            return
         run.reach("S:split" if len(pieces) > m - 1 else "S:no-split")
         run.prove("S:returns-None-and-one-node-per-piece-end", z3.BoolVal(ret is None and len(s_p) == len(pieces) + 1),
                   info={"nodes": len(s_p), "expected": len(pieces) + 1})
@@ -204,7 +235,9 @@ class Check(CheckBase):
                 got = (s_p[k][1], s_p[k][2], s_p[k + 1][0], s_p[k + 1][1])
                 if not all(x is y or (zreal(x[0]).eq(zreal(y[0])) and zreal(x[1]).eq(zreal(y[1]))) for x, y in zip(pts, got)):
                     flat_ok = False
-        run.prove("S:every-final-piece-was-judged-flat", z3.BoolVal(flat_ok))
+        # a structural lemma (with F it gives 'every final piece is flat'); a failure is lifted to the property itself
+        # on the real predicate before it is reported
+        run.prove("S:every-final-piece-was-judged-flat", z3.BoolVal(flat_ok), soft=True)
 
     # ------------------------------------------------------------------------------------------------
     def replay(self, cex):
@@ -231,6 +264,14 @@ class Check(CheckBase):
         case = next(c for c in self.cases("thorough") + self.cases("quick") if c["label"] == label)
         m = case["m"]
         nodes = [[[F(i["n%d_%d_%s" % (j, h, c)]) for c in "xy"] for h in range(3)] for j in range(m)]
+        if case["kind"] == "E2C" or cex["obligation"] == "S:every-final-piece-was-judged-flat":
+            # the real function with the real predicate: every final piece must be flat (exact distances)
+            flats = [F(i["flat"])] if "flat" in i else [F(1), F(1, 2), F(1, 10), F(1, 100), F(5)]
+            for flat in flats:
+                out = self._native_flat(pu, nodes, m, flat)
+                if out:
+                    return out
+            return None
         decisions = iter(cex.get("decisions", []))
         budget = {"left": case["K"]}
         answers = []
@@ -272,6 +313,21 @@ class Check(CheckBase):
                 return {"piece": k, "interval": [j, str(a), str(b)], "got": str(got), "expected": str(want), "answers": answers}
         if s_p[0][0] != nodes[0][0] or s_p[-1][2] != nodes[-1][2]:
             return {"outer_handles_changed": True}
+        return None
+
+    @staticmethod
+    def _native_flat(pu, nodes, m, flat):
+        s_p = [[list(pt) for pt in nd] for nd in nodes]
+        try:
+            pu.subdivideCubicPath(s_p, flat)
+        except Exception as ex:
+            return {"nodes": m, "flat": str(flat), "raised": repr(ex)}
+        for k in range(len(s_p) - 1):
+            P = [tuple(F(c) for c in q) for q in (s_p[k][1], s_p[k][2], s_p[k + 1][0], s_p[k + 1][1])]
+            far = [q for q in P[1:3] if not c09.dist_py(q, P[0], P[3]) < flat * flat]
+            if far:
+                return {"nodes": [[[str(c) for c in pt] for pt in nd] for nd in nodes], "flat": str(flat), "pieces": len(s_p) - 1,
+                        "piece_not_flat": k, "control_points": [[str(c) for c in q] for q in P]}
         return None
 
     def validate(self, tier, seed):
